@@ -21,7 +21,12 @@ var logger = log.With().Str("component", "update-copyright").Logger()
 
 // UpdateCopyright updates the copyright portion of the rules files to the provided year and version.
 func UpdateCopyright(ctxt *context.Context, version string, year string) {
-	err := filepath.WalkDir(ctxt.RootDir(), func(path string, d fs.DirEntry, err error) error {
+	root := ctxt.RootDir()
+	// WalkDir does not follow a symbolic link at the start of the walk
+	if resolved, err := filepath.EvalSymlinks(root); err == nil {
+		root = resolved
+	}
+	err := filepath.WalkDir(root, func(path string, d fs.DirEntry, err error) error {
 		if err != nil {
 			// abort
 			return err
